@@ -340,6 +340,62 @@ func checkC11(r *core.Run) {
 				}
 			}
 		}
+		// every item of the group reaches its delete: in the loop that holds the delete call nothing before it can
+		// skip the item (continue), leave the loop (break, goto) or the function (return) — an item skipped here was
+		// already answered 'committed', its undo log would stay for ever (e.g. a "seen" set keyed by branch id alone
+		// drops the same branch id of another xid)
+		{
+			skip := ""
+			ast.Inspect(h.Decl.Body, func(n ast.Node) bool {
+				var body *ast.BlockStmt
+				switch l := n.(type) {
+				case *ast.RangeStmt:
+					body = l.Body
+				case *ast.ForStmt:
+					body = l.Body
+				default:
+					return true
+				}
+				// the top-level statement of this loop body that contains the delete call
+				idx := -1
+				for i, st := range body.List {
+					has := false
+					ast.Inspect(st, func(m ast.Node) bool {
+						if _, isLoop := m.(*ast.RangeStmt); isLoop && m != ast.Node(st) {
+							return false
+						}
+						if c, ok := m.(*ast.CallExpr); ok && isIfaceOrImpl(w, core.Callee(info, c), "pkg/datasource/sql/undo", "UndoLogManager", "BatchDeleteUndoLog") {
+							has = true
+						}
+						return !has
+					})
+					if has {
+						idx = i
+						break
+					}
+				}
+				if idx < 0 {
+					return true
+				}
+				for _, st := range body.List[:idx] {
+					ast.Inspect(st, func(m ast.Node) bool {
+						switch y := m.(type) {
+						case *ast.FuncLit:
+							return false
+						case *ast.BranchStmt:
+							skip = w.Pos(y.Pos()) + ": '" + y.Tok.String() + "' before the delete"
+						case *ast.ReturnStmt:
+							skip = w.Pos(y.Pos()) + ": return before the delete"
+						}
+						return true
+					})
+				}
+				return true
+			})
+			r.Sites++
+			r.Check(skip == "", "C11.requeue", key+" every item of the group reaches its delete", w.Pos(h.Decl.Pos()), "nothing before the delete call can skip an item",
+				skip+": an accepted branch commit can be dropped from the batch without its undo log being deleted or the item being put back — it was already answered 'committed', so nobody retries it")
+		}
 		// a failed delete requeues that item: no path from the branch that knows the delete failed reaches the next
 		// delete or a return without a send on the queue (directly or through a requeue helper)
 		perItem := len(delErr) > 0
